@@ -15,7 +15,19 @@ def jobs_for(tier, seed, what):
     """job lists for the construction streams"""
     J = []
     n = C.NPROC
-    if what in ("C01", "C05", "C04"):
+    if what == "C04":
+        nb = 600 if tier == "quick" else 6000
+        J.append([{"gen": "boundary", "n": nb, "seed": seed * 1000 + k, "part": k, "nparts": n, "z3": 0, "meta": False,
+                   "spell": True, "asgs": 8, "rlimit_gb": 2, "shard": 20000} for k in range(n)])
+        for W in (1, 2):
+            J.append([{"gen": "exh", "W": W, "depth": 1, "z3": 0, "meta": False, "spell": True}])
+        J.append([{"gen": "rules", "per": 2, "seed": seed * 1000 + k, "z3": 0, "meta": False, "spell": True,
+                   "asgs": 8, "rlimit_gb": 2, "shard": 20000} for k in range(4)])
+        return J
+    if what == "C05":
+        nm = 150 if tier == "quick" else 1500
+        J.append([{"gen": "metaops", "n": nm, "seed": seed * 1000 + k, "rlimit_gb": 4} for k in range(n)])
+    if what in ("C01", "C05"):
         z3n = 1 if what == "C01" else 0
         meta = what == "C05"
         # bounded-exhaustive tiers
